@@ -26,6 +26,8 @@ import (
 	"time"
 
 	"pgregory.net/rapid"
+
+	"verif/gen"
 )
 
 // ---- environment ----------------------------------------------------------
@@ -78,6 +80,7 @@ var excluded = func() map[string]bool {
 	for _, s := range strings.Split(os.Getenv("VERIF_EXCLUDE"), ",") {
 		if s = strings.TrimSpace(s); s != "" {
 			m[s] = true
+			gen.RenderExclude[s] = true
 		}
 	}
 	return m
@@ -193,6 +196,9 @@ func (s *Stats) Write() {
 	jr.close()
 	s.mu.Lock()
 	defer s.mu.Unlock()
+	for k, v := range gen.RenderExcluded {
+		s.Excluded[k] += int64(v)
+	}
 	s.WallS = time.Since(s.start).Seconds()
 	dir := outDir()
 	b, _ := json.Marshal(s)
@@ -242,6 +248,12 @@ func fail(t fataler, prop, check string, c any, format string, a ...any) {
 	f := Failure{Property: prop, Check: check, Case: raw, Message: msg, Seed: seed(), Tier: tier()}
 	b, _ := json.MarshalIndent(f, "", " ")
 	os.WriteFile(filepath.Join(outDir(), fmt.Sprintf("fail-%d.json", sh)), b, 0o644)
+	if len(msg) > 1500 {
+		msg = msg[:1500] + "...(see replay file)"
+	}
+	if len(raw) > 600 {
+		raw = append(raw[:600:600], []byte("...(see replay file)")...)
+	}
 	t.Fatalf("%s/%s: %s\ncase: %s", prop, check, msg, raw)
 }
 
@@ -410,3 +422,5 @@ func runRapid(t *testing.T, n int, prop func(*rapid.T)) {
 	}
 	rapid.Check(t, prop)
 }
+
+func flagSet(name, value string) { flag.Set(name, value) }
